@@ -24,8 +24,7 @@ package storage
 //@   ensures [C22.shape.segmentIndexKey] c22SafeTopic(topic) ==> result == c22ObjKey(pathPfx(namespace), topic, fmtd(partition), "segment-" + fmtd0(baseOffset, 20) + ".index")
 
 // The one prefix scan of the broker's data path: restoring a partition lists exactly that partition's prefix
-// (exploration is cut after the listing; the rest of RestoreFromS3 belongs to C06).
+// (for the C22 check exploration is cut after the listing; the rest of RestoreFromS3 belongs to C06).
 //@ func (l *PartitionLog) RestoreFromS3
-//@   requires c22SafeTopic(l.topic) && l.s3 != nil
-//@   at ListSegments#1 before assert [C22.restore_lists_own_prefix] arg1 == c22SegPrefix(pathPfx(l.namespace), l.topic, fmtd(l.partition))
-//@   at ListSegments#1 after stop
+//@   at ListSegments#1 before assert [C22.restore_lists_own_prefix] c22SafeTopic(l.topic) ==> arg1 == c22SegPrefix(pathPfx(l.namespace), l.topic, fmtd(l.partition))
+//@   at ListSegments#1 after stop [C22]
